@@ -486,6 +486,128 @@ func C20(p *load.Prog, r *oblig.Run) {
 			o.Fail("the warning is not emitted exactly under the negative pairs.Has test with the pair recorded on the same path")
 		}
 	}
+	c20More(p, r)
+}
+
+// loopHeaders: blocks that are the target of a back edge.
+func loopHeaders(fn *ssa.Function) []*ssa.BasicBlock {
+	var hs []*ssa.BasicBlock
+	for _, b := range fn.Blocks {
+		for _, pr := range b.Preds {
+			if b.Dominates(pr) {
+				hs = append(hs, b)
+				break
+			}
+		}
+	}
+	return hs
+}
+
+// c20More: R20.d (the pair search is exhaustive) and R20.e (the two parent
+// tests of a child are independent).
+func c20More(p *load.Prog, r *oblig.Run) {
+	r.Rule("R20.d", "IndividualNodePairs.Has gives a negative answer only after every recorded pair was examined", 1)
+	r.Rule("R20.e", "a child is tested against the father and against the mother independently (both warnings when born before both)", 1)
+	has := p.Method(load.PkgRoot, "IndividualNodePairs", "Has")
+	if has == nil || len(has.Blocks) == 0 {
+		r.Add("R20.d", "anchor", "-", "anchor").Unknown("IndividualNodePairs.Has not found")
+	} else {
+		hs := loopHeaders(has)
+		o := r.Add("R20.d", "returns inside the search loop of Has", p.Pos(has.Pos()), "search loop of IndividualNodePairs.Has")
+		bad := ""
+		n := 0
+		for _, b := range has.Blocks {
+			ret, ok := b.Instrs[len(b.Instrs)-1].(*ssa.Return)
+			if !ok || len(ret.Results) != 1 {
+				continue
+			}
+			// inside the loop: dominated by the header but not by the edge that leaves the loop
+			inLoop := false
+			for _, h := range hs {
+				if !h.Dominates(b) || h == b {
+					continue
+				}
+				post := false
+				for _, sx := range h.Succs {
+					if !loopBlock(sx, h) && sx.Dominates(b) && len(sx.Preds) == 1 {
+						post = true
+					}
+				}
+				if !post {
+					inLoop = true
+				}
+			}
+			if !inLoop {
+				continue
+			}
+			n++
+			vals := []ssa.Value{ret.Results[0]}
+			if ph, isPhi := ret.Results[0].(*ssa.Phi); isPhi {
+				vals = ph.Edges
+			}
+			for _, v := range vals {
+				k, isK := v.(*ssa.Const)
+				if !isK || k.Value == nil || k.Value.Kind() != constant.Bool || !constant.BoolVal(k.Value) {
+					bad = "the return at " + p.Pos(ret.Pos()) + " inside the loop can answer false: the search stops at the first recorded pair that matches partly and never looks at the later pairs"
+				}
+			}
+		}
+		switch {
+		case len(hs) == 0:
+			o.Unknown("Has has no loop")
+		case bad != "":
+			o.Fail(bad)
+		default:
+			o.OK(fmt.Sprintf("%d return(s) inside the loop, all constant true", n))
+		}
+	}
+	cb := p.Method(load.PkgRoot, "FamilyNode", "childrenBornBeforeParentsWarnings")
+	ctor := p.Func(load.PkgRoot, "NewChildBornBeforeParentWarning")
+	if cb == nil || ctor == nil {
+		r.Add("R20.e", "anchor", "-", "anchor").Unknown("childrenBornBeforeParentsWarnings / NewChildBornBeforeParentWarning not found")
+		return
+	}
+	sites := su.CallsTo(cb, ctor)
+	o := r.Add("R20.e", "parent tests in childrenBornBeforeParentsWarnings", p.Pos(cb.Pos()), "independence of the warning sites")
+	hs := loopHeaders(cb)
+	switch {
+	case len(sites) < 2:
+		o.Fail(fmt.Sprintf("only %d construction site(s) of the child-born-before-parent warning: one of the parents is no longer tested", len(sites)))
+	case len(hs) == 0:
+		o.Unknown("no loop over the children")
+	default:
+		// every later site must be reachable from every earlier one within the same iteration
+		reach := func(a, b *ssa.BasicBlock) bool {
+			for _, h := range hs {
+				if !su.ReachableBlocksAvoiding(a, b, h) {
+					return false
+				}
+			}
+			return true
+		}
+		bad := ""
+		for i := 0; i < len(sites); i++ {
+			for j := 0; j < len(sites); j++ {
+				if i == j {
+					continue
+				}
+				a, b := sites[i].Block(), sites[j].Block()
+				if a == b {
+					continue
+				}
+				ab := reach(a, b)
+				ba := reach(b, a)
+				if !ab && !ba {
+					bad = fmt.Sprintf("after the warning built at %s the test that leads to the warning at %s is skipped for the same child (the sites exclude each other): a child born before both parents gets one warning instead of two", p.Pos(sites[i].Pos()), p.Pos(sites[j].Pos()))
+				}
+			}
+		}
+		if bad != "" {
+			o.Fail(bad)
+		} else {
+			o.OK(fmt.Sprintf("%d warning sites, each reachable from the other within one iteration", len(sites)))
+		}
+	}
 }
 
 func lastN(s []string, n int) []string {
